@@ -159,6 +159,27 @@ Example global_flip_hypotheses_satisfiable :
   orient_iface 1 [(1, 0%nat); (-1, 1%nat)] = Some [(-1, 0%nat); (1, 1%nat)] /\ orient_iface (-1) [(1, 0%nat); (-1, 1%nat)] = Some [(1, 0%nat); (-1, 1%nat)].
 Proof. split; reflexivity. Qed.
 
+(* --- A5. the head matrix of c10's assembly model (coq/Geom/Assembly.v, R instance) under a renumbering of the vertex
+   unknowns that fixes the triangle indices (what a vertex relabelling does: relabel_vertices_equivariant +
+   generate_indices_bijection): every cell of the assembled, not yet deflated, matrix moves with the renumbering.  This
+   discharges the hypothesis of label_free_matrices_are_conjugate for the head matrix with only the kernels, areas and
+   positions abstract.  Deflation is excluded on purpose: its coefficient is read at the FIRST vertex of the first
+   outermost mesh (Details::deflate), so it is not label-free (the solution modulo constants is). *)
+From Coq Require Reals.
+From OM Require Geom.Assembly Geom.AssemblyProofs Geom.HeadMatRelabel.
+Notation R := Rdefinitions.R (only parsing).
+Theorem head_matrix_follows_vertex_renumbering :
+  forall (K : R) (pos : N -> R * R * R) (area : N -> R) (Sk : N -> N -> R) (Dk : N -> N -> nat -> R)
+         (g g' : Assembly.igeom R) (pi : N -> N),
+  (forall a b, pi a = pi b -> a = b) ->
+  Assembly.gmeshes g' = Assembly.gmeshes g -> Assembly.gpairs g' = Assembly.gpairs g ->
+  (forall v, Assembly.vix g' v = pi (Assembly.vix g v)) ->
+  (forall k t, In t (Assembly.mtris (Assembly.gmesh g k)) -> pi (Assembly.tix t) = Assembly.tix t) ->
+  forall r c, Assembly.mget AssemblyProofs.RO (Assembly.assemble_pairs AssemblyProofs.RO K pos area Sk Dk g') (pi r) (pi c)
+            = Assembly.mget AssemblyProofs.RO (Assembly.assemble_pairs AssemblyProofs.RO K pos area Sk Dk g) r c.
+Proof. exact HeadMatRelabel.assemble_pairs_relabel. Qed.
+Print Assumptions head_matrix_follows_vertex_renumbering.
+
 (* --- B. algebra (MathComp) *)
 From mathcomp Require Import all_ssreflect all_fingroup all_algebra.
 From OM Require Import Geom.GainAlgebra.
